@@ -230,6 +230,10 @@ def const_value(fn, nid):
             continue
         if isinstance(n.get("v"), int) and n["k"] in ("ref", "member"):
             return n["v"]
+        if n["k"] == "construct" and fn.kids(nid):
+            # a value-initialised / all-null wrapper such as marked_ptr{nullptr, 0}
+            if all(const_value(fn, x) == 0 for x in fn.kids(nid)):
+                return 0
         break
     return None
 
